@@ -16,69 +16,73 @@ open TV TV.Ctx TV.CtxLink
 
 /-- After the operation has returned the wrapped connection carries no leftover deadline, and the
     watcher goroutine is gone — whatever the interleaving of cancellation, data and the two goroutines. -/
-theorem no_leftover_deadline (want avail : Nat) (c : Bool) (ss : List Step) :
-    let o := run (Op.new want avail c) ss
+theorem no_leftover_deadline (want avail : Nat) (c st : Bool) (ss : List Step) :
+    let o := run (Op.new want avail c st) ss
     o.main = .finished → o.deadlineOld = false ∧ o.watcher = .exited := by
-  exact Proofs.Ctx.inv_finished_clean _ (Proofs.Ctx.inv_reach want avail c ss)
+  exact Proofs.Ctx.inv_finished_clean _ (Proofs.Ctx.inv_reach want avail c st ss)
 
 /-- What the operation reports is what moved: the byte count is exactly the number of bytes that
     left the wrapped connection (a cancelled operation that reports zero has transferred none, and
     one that transferred bytes reports them even if the context fired meanwhile); the context's
     error appears only if the context was cancelled and nothing was transferred; the wrapped
-    connection's own timeout error (the watcher's forced deadline) never leaks to the caller; and
-    with a live context the operation behaves like the wrapped connection: it returns data, no error. -/
-theorem result_is_what_moved (want avail : Nat) (c : Bool) (ss : List Step) (n : Nat) (e : Err) :
-    let o := run (Op.new want avail c) ss
+    connection's own timeout error (the watcher's forced deadline) reaches the caller only with a
+    stream write that was cancelled after it had written a part (0 < n < want: the byte count is
+    reported with the error the write failed with); and with a live context the operation behaves
+    like the wrapped connection: it returns data (a stream write: all of it), no error. -/
+theorem result_is_what_moved (want avail : Nat) (c st : Bool) (ss : List Step) (n : Nat) (e : Err) :
+    let o := run (Op.new want avail c st) ss
     o.result = some (n, e) →
-      n = o.transferred ∧ n ≤ want ∧ e ≠ .timeout ∧
+      n = o.transferred ∧ n ≤ want ∧
+      (e = .timeout → (o.cancelled = true ∧ st = true ∧ 0 < n ∧ n < want)) ∧
       (e = .ctx → (o.cancelled = true ∧ n = 0)) ∧
-      (o.cancelled = false → 0 < want → e = .nil ∧ 0 < n) := by
+      (o.cancelled = false → 0 < want → e = .nil ∧ 0 < n ∧ (st = true → n = want)) := by
   intro o hr
-  have h := Proofs.Ctx.inv_result o (Proofs.Ctx.inv_reach want avail c ss) n e hr
-  rw [show o.want = want from Proofs.Ctx.reach_want want avail c ss] at h
+  have h := Proofs.Ctx.inv_result o (Proofs.Ctx.inv_reach want avail c st ss) n e hr
+  rw [show o.want = want from Proofs.Ctx.reach_want want avail c st ss,
+    show o.stream = st from Proofs.Ctx.reach_stream want avail c st ss] at h
   exact ⟨h.1, h.2.1, h.2.2.1, h.2.2.2.1, h.2.2.2.2.1⟩
 
 /-- the result exists exactly when the caller has returned -/
-theorem finished_iff_result (want avail : Nat) (c : Bool) (ss : List Step) :
-    let o := run (Op.new want avail c) ss
+theorem finished_iff_result (want avail : Nat) (c st : Bool) (ss : List Step) :
+    let o := run (Op.new want avail c st) ss
     o.main = .finished ↔ o.result.isSome = true := by
-  exact Proofs.Ctx.inv_finished_iff _ (Proofs.Ctx.inv_reach want avail c ss)
+  exact Proofs.Ctx.inv_finished_iff _ (Proofs.Ctx.inv_reach want avail c st ss)
 
 /-- Bytes are neither lost nor invented: at every instant, what the wrapped connection still holds
     plus what the operation has transferred equals what it held at the start plus what arrived. -/
-theorem bytes_conserved (want avail : Nat) (c : Bool) (ss : List Step) :
-    let o := run (Op.new want avail c) ss
+theorem bytes_conserved (want avail : Nat) (c st : Bool) (ss : List Step) :
+    let o := run (Op.new want avail c st) ss
     o.avail + o.transferred = avail + dataSum ss := by
-  exact Proofs.Ctx.reach_bytes want avail c ss
+  exact Proofs.Ctx.reach_bytes want avail c st ss
 
 /-- Promptness and absence of deadlock: at a state where neither goroutine can move without a
     further external event, either the operation has returned, or the caller is inside the wrapped
     call with a live context and nothing to transfer.  In particular, once the context is cancelled
     the operation returns as soon as both goroutines have been run — nobody stays blocked in
     `wg.Wait()`, in the select or in `<-done`. -/
-theorem cancelled_returns (want avail : Nat) (c : Bool) (ss : List Step) :
-    let o := run (Op.new want avail c) ss
+theorem cancelled_returns (want avail : Nat) (c st : Bool) (ss : List Step) :
+    let o := run (Op.new want avail c st) ss
     o.quiescent = true →
       o.main = .finished ∨ (o.main = .inCall ∧ o.cancelled = false ∧ o.avail = 0) := by
-  exact Proofs.Ctx.inv_quiescent _ (Proofs.Ctx.inv_reach want avail c ss)
+  exact Proofs.Ctx.inv_quiescent _ (Proofs.Ctx.inv_reach want avail c st ss)
 
 /-- … and an operation (on a non-empty slice) that returns having transferred nothing returns the
     context's error: the only way to return without data is the cancellation. -/
-theorem cancelled_error (want avail : Nat) (c : Bool) (ss : List Step) (e : Err) (hw : 0 < want) :
-    let o := run (Op.new want avail c) ss
+theorem cancelled_error (want avail : Nat) (c st : Bool) (ss : List Step) (e : Err) (hw : 0 < want) :
+    let o := run (Op.new want avail c st) ss
     o.result = some (0, e) → e = .ctx ∧ o.cancelled = true := by
   intro o hr
-  have h := Proofs.Ctx.inv_result o (Proofs.Ctx.inv_reach want avail c ss) 0 e hr
-  rw [show o.want = want from Proofs.Ctx.reach_want want avail c ss] at h
+  have h := Proofs.Ctx.inv_result o (Proofs.Ctx.inv_reach want avail c st ss) 0 e hr
+  rw [show o.want = want from Proofs.Ctx.reach_want want avail c st ss] at h
   exact h.2.2.2.2.2 hw rfl
 
 /-- The next operation is not affected by the previous one: it starts exactly as an operation on a
     connection without deadline. -/
-theorem next_starts_clean (want avail : Nat) (c : Bool) (ss : List Step) (want' : Nat) (c' : Bool) :
-    let o := run (Op.new want avail c) ss
-    o.main = .finished → Op.next o want' c' = Op.new want' o.avail c' := by
+theorem next_starts_clean (want avail : Nat) (c st : Bool) (ss : List Step) (want' : Nat) (c' st' : Bool) :
+    let o := run (Op.new want avail c st) ss
+    o.main = .finished → Op.next o want' c' st' = Op.new want' o.avail c' st' := by
   intro o hf
-  exact Proofs.Ctx.inv_next_clean o (Proofs.Ctx.inv_reach want avail c ss) hf want' c'
+  exact Proofs.Ctx.inv_next_clean o (Proofs.Ctx.inv_reach want avail c st ss) hf want' c' st'
 
 /-- Conservation across any sequence of operations with any cancellations: if every operation of
     the session has returned, the bytes reported by all of them together equal what the connection
@@ -89,7 +93,7 @@ theorem session_conserves (avail : Nat) (cs : List Call) (hne : cs ≠ [])
       = avail + offered cs := by
   cases cs with
   | nil => exact absurd rfl hne
-  | cons c cs => exact Proofs.Ctx.session_conserves_gen c.want avail c.cancelled (c :: cs) hne hfin
+  | cons c cs => exact Proofs.Ctx.session_conserves_gen c.want avail c.cancelled c.stream (c :: cs) hne hfin
 
 /-- … and no operation of such a session is timed out by a deadline left by an earlier one: an
     operation whose own context is live returns data and no error. -/
@@ -101,7 +105,7 @@ theorem session_live_ops_unaffected (avail : Nat) (cs : List Call)
   | nil => intro o ho; simp [session] at ho
   | cons c cs =>
     intro o ho hc hw
-    exact Proofs.Ctx.inv_live o (Proofs.Ctx.session_inv c.want avail c.cancelled (c :: cs) hfin o ho)
+    exact Proofs.Ctx.inv_live o (Proofs.Ctx.session_inv c.want avail c.cancelled c.stream (c :: cs) hfin o ho)
       (hfin o ho) hc hw
 
 -- non-vacuity: cancellation while the caller is blocked: the watcher forces the deadline, the call
@@ -114,9 +118,13 @@ example : (run (Op.new 4 0 false) [.main, .watcher, .watcher, .cancel, .main, .w
 example : (run (Op.new 4 0 false) [.main, .watcher, .data 3, .cancel, .main, .watcherCtx, .main, .watcher]).result = some (3, .nil)
     ∧ (run (Op.new 4 0 false) [.main, .watcher, .data 3, .cancel, .main, .watcherCtx, .main, .watcher]).deadlineOld = false := by decide
 
+-- non-vacuity: a stream write of 10 bytes, the peer takes 4, then the context fires: 4 bytes are reported
+example : (run (Op.new 10 4 false true) [.main, .watcher, .watcher, .main, .cancel, .main, .watcher, .main]).result = some (4, .timeout)
+    ∧ (run (Op.new 10 4 false true) [.main, .watcher, .watcher, .main, .cancel, .main, .watcher, .main]).deadlineOld = false := by decide
+
 -- non-vacuity: a session of two operations, the first cancelled
-example : ((session (start 0 [⟨4, false, [.main, .watcher, .watcher, .cancel, .main, .watcher, .main]⟩, ⟨4, false, [.data 5, .main, .main, .watcher, .watcher, .main]⟩])
-    [⟨4, false, [.main, .watcher, .watcher, .cancel, .main, .watcher, .main]⟩, ⟨4, false, [.data 5, .main, .main, .watcher, .watcher, .main]⟩]).map (·.result))
+example : ((session (start 0 [⟨4, false, [.main, .watcher, .watcher, .cancel, .main, .watcher, .main], false⟩, ⟨4, false, [.data 5, .main, .main, .watcher, .watcher, .main], false⟩])
+    [⟨4, false, [.main, .watcher, .watcher, .cancel, .main, .watcher, .main], false⟩, ⟨4, false, [.data 5, .main, .main, .watcher, .watcher, .main], false⟩]).map (·.result))
     = [some (0, .ctx), some (4, .nil)] := by decide
 
 end TV.Props.C17
